@@ -140,6 +140,29 @@ fn check_tape(tape: &[u8], gates: &Gates, stats: &mut Stats, counting: bool) -> 
     if crlf {
         text = text.replace('\n', "\r\n");
     }
+    // characters that old tools and byte-level shortcuts treat specially (end-of-file marker, NUL,
+    // DEL, no-break space, a BOM that is not at the start, form feed, line separators) at the very
+    // end, at the very start or in the middle of the text
+    const SPECIAL: &[char] = &['\u{1a}', '\u{0}', '\u{7f}', '\u{a0}', '\u{feff}', '\u{c}', '\u{b}', '\u{2028}', '\u{201a}', '\u{1b}'];
+    if choice.ratio(1, 4) {
+        let c = *choice.pick(SPECIAL);
+        match choice.below(4) {
+            0 => text.push(c),
+            1 => {
+                // last character of the file, no final line break
+                while text.ends_with('\n') || text.ends_with('\r') {
+                    text.pop();
+                }
+                text.push(c);
+            }
+            // (a text that STARTS with U+FEFF cannot be told from a byte-order mark: not written)
+            2 => text.insert(0, if c == '\u{feff}' { '\u{a0}' } else { c }),
+            _ => {
+                let at = text.char_indices().map(|(i, _)| i).nth(choice.below(text.chars().count().max(1))).unwrap_or(0);
+                text.insert(at, if at == 0 && c == '\u{feff}' { '\u{a0}' } else { c });
+            }
+        }
+    }
     let mut reference: Option<(usize, Obs)> = None;
     let mut skipped_1252 = false;
     for which in 0..5 {
@@ -277,7 +300,7 @@ pub fn run(ctx: &Ctx) -> i32 {
         ctx.tier,
         ctx.seed,
         "exploration",
-        "(1) generated programs (valid / one planted fault) decorated with non-ASCII characters of the Windows-1252 repertoire in comments and string literals, LF or CRLF, each written as UTF-8, UTF-8+BOM, UTF-16LE+BOM, UTF-16BE+BOM and Windows-1252 (a 1252 variant whose bytes are valid UTF-8 is skipped and counted): identical exit status, (code, line, column) multiset of `check` and `tokenize` listing; (2) EXHAUSTIVE: every byte value 0x00-0xFF inserted in a comment, in a string literal, between two tokens and inside an identifier of a fixed valid program (1024 files): exit status 0/1 and every reported position inside the decoded text (decoding cascade re-implemented with encoding_rs); (3) random binary files <= 4 KiB. Non-trivial (1): text contains a non-ASCII character; (2),(3) always. Distinct by (encoding, text) / file bytes.",
+        "(1) generated programs (valid / one planted fault) decorated with non-ASCII characters of the Windows-1252 repertoire in comments and string literals, LF or CRLF, each written as UTF-8, UTF-8+BOM, UTF-16LE+BOM, UTF-16BE+BOM and Windows-1252 (a 1252 variant whose bytes are valid UTF-8 is skipped and counted): identical exit status, (code, line, column) multiset of `check` and `tokenize` listing; (2) EXHAUSTIVE: every byte value 0x00-0xFF inserted in a comment, in a string literal, between two tokens and inside an identifier of a fixed valid program (1024 files): exit status 0/1 and every reported position inside the decoded text (decoding cascade re-implemented with encoding_rs); (2b) degenerate texts (empty, blanks, lone comment / token / unmatched text, with and without final line break) in every encoding; (3) random binary files <= 4 KiB. Non-trivial (1): text contains a non-ASCII character; (2),(3) always. Distinct by (encoding, text) / file bytes.",
     );
     let gates = ctx.gates_for("C14");
     let off = gates.off_list();
@@ -303,6 +326,46 @@ pub fn run(ctx: &Ctx) -> i32 {
     });
     rep.add(out);
     rep.extra.insert("byte_insertion_exhaustive".into(), json!(true));
+    // (2b) degenerate texts in every encoding: nothing, blanks, a lone comment, unmatched text, a
+    // lone token, with and without a final line break - same exit status and positions everywhere
+    let degenerate: Vec<&str> = vec!["", " ", "\n", "\r\n", "(* caf\u{e9} *)", "(* c *)\n", "?", "?\n", "\u{20ac}", "x", "x := 1;", "PROGRAM", "'\u{e9}'", "(* never closed"];
+    let out = run_items(&degenerate, 4, |text, stats| {
+        let mut reference: Option<(usize, Obs)> = None;
+        for which in 0..5 {
+            let bytes = match encode(text, which) {
+                Some(b) => b,
+                None => continue,
+            };
+            let o = match observe(&bytes) {
+                Some(o) => o,
+                None => {
+                    stats.inconclusive += 1;
+                    continue;
+                }
+            };
+            stats.case(true, hash_str(&format!("deg{}{}", which, text)));
+            stats.class("degenerate-text");
+            let inputs = json!({"text": text, "encoding": ENC_NAMES[which]});
+            match (o.status, o.tok_status) {
+                (Some(0) | Some(1), Some(0) | Some(1)) => {}
+                other => return Err(Failure::new("degenerate", "abnormal-exit", format!("{:?} as {}: check / tokenize exit {:?}", text, ENC_NAMES[which], other), inputs)),
+            }
+            if let Some((rw, r)) = &reference {
+                if r.status != o.status || r.tok_status != o.tok_status || r.diags != o.diags {
+                    return Err(Failure::new(
+                        "degenerate",
+                        "verdict-differs",
+                        format!("{:?}: check exit {:?} / tokenize exit {:?} / {:?} as {}, but {:?} / {:?} / {:?} as {}", text, r.status, r.tok_status, r.diags, ENC_NAMES[*rw], o.status, o.tok_status, o.diags, ENC_NAMES[which]),
+                        inputs,
+                    ));
+                }
+            } else {
+                reference = Some((which, o));
+            }
+        }
+        Ok(())
+    });
+    rep.add(out);
     // (3) random binaries
     let nbin = ctx.tier.pick(150, 3000);
     let seeds: Vec<u64> = (0..nbin as u64).collect();
